@@ -116,6 +116,17 @@ def main(argv=None) -> int:
             if reason not in m["inconclusive"]:
                 m["inconclusive"].append(reason)
 
+    # A reach counter names a function of the library, most of them private. One that no longer exists in the tree
+    # under test (renamed or folded away by a refactor) cannot be entered: the verdict rests on the oracle comparisons at
+    # the public boundary, which ran or not regardless, so its absence is recorded and does not make the run inconclusive.
+    import re as _re
+    for reason in list(m["inconclusive"]):
+        mt = _re.fullmatch(r"mechanism (\S+) never entered", reason)
+        if mt and mt.group(1).split(".")[-1].startswith("_") and m["stats"].get(f"reach-absent:{mt.group(1)}") \
+                and not m["reached"].get(mt.group(1)):
+            m["inconclusive"].remove(reason)
+            m["notes"].append(f"private function {mt.group(1)} is not in this tree (renamed or removed): its reach counter is not required")
+
     known = findings.load(prop)
     known_hit: Counter = Counter()
     new_mechs: dict[str, dict] = {}
@@ -192,6 +203,7 @@ def main(argv=None) -> int:
                 "oracle_selftest": dict(m["selftest"]),
                 "known_findings_hit": dict(known_hit),
                 "inconclusive_reasons": m["inconclusive"],
+                "notes": sorted(set(m["notes"]))[:40],
                 "shards": m["shards"],
                 "verdict": verdict,
                 "repo": repo_path(),
